@@ -41,3 +41,14 @@ reg('C10', True, 'other',
     'main; replica closures do not capture the replica count (prefix-monotonicity of the max).',
     'Trusted: rayon map/max semantics, serde_json::to_string, svg::save, std fs. Does not decide file-system effects.',
     'MIR value-lineage dataflow + HIR literal table + sibling-implementation cross-check')
+
+reg('C13', True, 'other',
+    'Symbolic execution of the loop-free LJ2::energy over all CFG paths; each guarded result is normalised to an exact '
+    'rational function over Q and compared with the reference law: uncut branch = 4 eps ((s/r)^12-(s/r)^6); guard '
+    'r^2 < cutoff^2 => that minus its value at the cutoff, otherwise exactly 0; substituting r^2 := cutoff^2 gives the '
+    'zero polynomial (continuity); positions occur only inside r^2 (rigid-motion invariance); swap self<->other compared '
+    '(fails today: known finding, only self\'s parameters are used); molecule energy = sum over the full cartesian '
+    'product of components (adaptor-chain whitelist); all 8 Mul impls copy sigma/epsilon/cutoff and move the position by T.',
+    'Real-number identities only (no rounding). Trusted: symbolic interpreter + model table for f64::powi and nalgebra '
+    'Point/Vector/Transform ops; itertools cartesian_product and Iterator::sum cardinality.',
+    'symbolic execution of MIR + polynomial normal-form identity + adaptor-chain recognition')
